@@ -319,6 +319,11 @@ class Emitter:
         name = e["name"]
         t = self.typeof(e["recv"])
         tn = self.type_name(t)
+        r0 = e["recv"]
+        # spec hint: the Rust type of a local whose type the translator cannot infer (bound by a pattern on an extern's result)
+        lt = getattr(self, "opts", {}).get("local_types", {})
+        if r0["k"] == "path" and len(r0["segs"]) == 1 and r0["segs"][0] in lt:
+            tn = lt[r0["segs"][0]]
         if tn:
             key = f"{tn}::{name}"
             if key in self.c.fns or self.c.extern(key): return key
@@ -750,6 +755,11 @@ class Emitter:
         ext = self.c.extern(key)
         if ext is not None and key not in self.c.spec.get("functions", {}):
             tmpl = ext["lean"]
+            if ext.get("recv_place"):
+                # the call acts on a ghost field of `self` (environment state), not on its syntactic receiver
+                segs = ext["recv_place"].split(".")
+                recv = N("path", line, segs=[segs[0]])
+                for sg in segs[1:]: recv = N("field", line, e=recv, name=sg)
             use_recv = recv is not None and "{self}" in tmpl
             pre, ts = self.vals(([recv] if use_recv else []) + list(args))
             term = tmpl
@@ -781,7 +791,7 @@ class Emitter:
                     for i, t in enumerate(ts):
                         v = v.replace("{" + str(i) + "}", self.atom(t))
                     margs.append((args[int(ai)], v))
-                return pre, "PURE:" + term, ["MUTARGS", margs]
+                return pre, (term if ext.get("monadic", ext.get("result", False)) else "PURE:" + term), ["MUTARGS", margs]
             if not ext.get("monadic", ext.get("result", False)):
                 return pre, "PURE:" + term, []
             return pre, term, []
@@ -841,7 +851,8 @@ class Emitter:
         if wb and wb[0] == "MUTARGS":
             pre = list(pre)
             resv = self.fresh("r")
-            pre.append(f"let {resv} := {term[5:]}")
+            if term.startswith("PURE:"): pre.append(f"let {resv} := {term[5:]}")
+            else: pre.append(f"let {resv} ← {term}")
             stores = []
             for place, v in wb[1]:
                 tv = self.fresh("a")
@@ -941,6 +952,11 @@ class Emitter:
             return p, f"(← Rs.optMapM {self.atom(t)} (fun {' '.join(ps)} => do\n" + "\n".join(indent(body, 2)) + "))"
         if name in MUT_BUILTINS:
             return self.mut_builtin(e)
+        if name == "as_bytes" and recv["k"] == "path" and len(recv["segs"]) == 1 and recv["segs"][0] in self.c.consts:
+            cty = self.c.consts[recv["segs"][0]]["ty"]
+            if cty["k"] == "tref" and cty["t"]["k"] == "tpath" and cty["t"]["segs"][-1][0] == "str":
+                p, t = self.val(recv)
+                return p, f"(Rs.strBytes {self.atom(t)})"
         if name in BUILTIN_METHODS:
             tmpl = BUILTIN_METHODS[name]
             pre, ts = self.vals([recv] + list(args))
@@ -1176,6 +1192,8 @@ class Emitter:
         if k == "match": return self.match_lines(e, "stmt")
         if k == "for": return self.stmt_for(e)
         if k == "while": return self.stmt_while(e)
+        if k == "loop":
+            return self.stmt_while(N("while", e["line"], c=N("bool", e["line"], v=True), body=e["body"]))
         if k == "whilelet":
             # `while let PAT = E { body }`  ==  `while true { match E { PAT => body, _ => break } }`
             ln = e["line"]
@@ -1395,6 +1413,20 @@ class Emitter:
         Guards are compiled by falling through to the remaining arms."""
         scrut = e["e"]
         arms = e["arms"]
+        # an arm `CONST_NAME =>` (a named constant of the crate, not a binding) compares with the constant's value
+        def constify(p):
+            nm = p.get("name") if p["k"] == "pident" else (p["path"][0] if p["k"] == "ppath" and len(p["path"]) == 1 else None)
+            if nm is not None and nm in self.c.consts and nm.upper() == nm:
+                return N("pconst", p["line"], name=nm)
+            if p["k"] == "por":
+                alts = [constify(q) for q in p["alts"]]
+                if any(a is not b for a, b in zip(alts, p["alts"])): return N("por", p["line"], alts=alts)
+            return p
+        if any(constify(a["pat"]) is not a["pat"] for a in arms):
+            arms = [N("arm", a["line"], pat=constify(a["pat"]), guard=a["guard"], body=a["body"]) for a in arms]
+            pre, s = self.val(scrut)
+            v = self.fresh("m")
+            return list(pre) + [f"let {v} := {s}"] + self.int_chain(v, arms, mode)
         int_like = all(a["pat"]["k"] in ("plit", "prange", "pwild", "pident", "por") and self.int_pat(a["pat"]) for a in arms) and \
             any(a["pat"]["k"] in ("plit", "prange", "por") for a in arms) and \
             not any(a["pat"]["k"] == "plit" and a["pat"]["e"]["k"] in ("bstr", "str", "bool") for a in arms)
@@ -1403,8 +1435,46 @@ class Emitter:
             lines = list(pre)
             lines.append(f"match {c} with")
             seen_err, seen_ok_all = False, False
+            # guarded `Err(e) if g => b1, Err(e) => b2`: one `Res.err` arm with an if-chain over the guards (the error value
+            # is not modelled: `e` is unit and `e.kind()` is what the spec's extern says)
+            is_err_arm = lambda a: a["pat"]["k"] == "ptstruct" and a["pat"]["path"][-1] == "Err"
+            if any(is_err_arm(a) and a["guard"] is not None for a in arms):
+                err_arms = [a for a in arms if is_err_arm(a)]
+                if err_arms[-1]["guard"] is not None: raise Unsupported("guarded Err arms without a final unguarded one")
+                chain = []
+                def build(i):
+                    a = err_arms[i]
+                    self.push_scope()
+                    bind = []
+                    ap = a["pat"]
+                    q = ap["ps"][0] if ap["ps"] else None
+                    while q is not None and q["k"] == "pref": q = q["p"]
+                    if q is not None and q["k"] == "pident":
+                        self.declare(q["name"], mut=False, ty=N("tpath", 0, segs=[("ErrorValue", [])]))
+                        bind = [f"let {lname(q['name'])} := ()"]
+                    if a["guard"] is None:
+                        out = bind + self.arm_body(a["body"], mode)
+                        self.pop_scope()
+                        return out
+                    pg, g = self.cond(a["guard"])
+                    if pg: raise Unsupported("effects in match guard")
+                    body = self.arm_body(a["body"], mode)
+                    self.pop_scope()
+                    rest = build(i + 1)
+                    return bind + [f"if {g} then"] + indent(body, 2) + ["else"] + indent(rest, 2)
+                merged_body = build(0)
+                first = err_arms[0]
+                arms = [a for a in arms if not is_err_arm(a) or a is first]
+                first_marker = first
+            else:
+                first_marker = None
+                merged_body = None
             for a in arms:
                 self.push_scope()
+                if a is first_marker:
+                    lines.append("| Res.err =>"); lines += indent(merged_body, 2)
+                    seen_err = True
+                    self.pop_scope(); continue
                 p = self.pat(a["pat"])
                 if a["guard"] is not None: raise Unsupported("guard on Result match")
                 if p == "_":
@@ -1450,6 +1520,9 @@ class Emitter:
 
     def int_test(self, v, p):
         k = p["k"]
+        if k == "pconst":
+            pc, c = self.v_path(N("path", p["line"], segs=[p["name"]]))
+            return f"{v} = {c}"
         if k == "plit": return f"{v} = {self.lit(p['e'])}"
         if k == "prange":
             lo = self.lit(p["lo"])
@@ -1754,7 +1827,7 @@ class Emitter:
             return [f"return {self.wrap_ret(None) or '()'}"]
         k = e["k"]
         if k in ("return",): return self.stmt_return(e)
-        if k in ("for", "while", "whilelet", "assign") or (k == "macro" and (e["name"] in LOG_MACROS or e["name"].startswith("assert"))):
+        if k in ("for", "while", "whilelet", "loop", "assign") or (k == "macro" and (e["name"] in LOG_MACROS or e["name"].startswith("assert"))):
             return self.stmt_expr(e) + self.tail(None)
         if not self.has_value_ret() and k in ("mcall", "call", "if", "iflet", "match") and not self.ret_is_result:
             return self.stmt_expr(e) + self.tail(None)
